@@ -159,7 +159,7 @@ def _fold(node):
     return None
 
 
-_SIZE_CALLS = {"range", "islice", "deque", "setrecursionlimit", "min", "max", "divmod", "batched", "nlargest", "nsmallest", "accumulate", "repeat", "combinations", "permutations"}
+_SIZE_CALLS = {"lru_cache", "range", "islice", "deque", "setrecursionlimit", "min", "max", "divmod", "batched", "nlargest", "nsmallest", "accumulate", "repeat", "combinations", "permutations"}
 
 
 def harvested_sizes(src, exclude=("edgegraph/version.py",)):
@@ -219,6 +219,12 @@ def harvested_sizes(src, exclude=("edgegraph/version.py",)):
                         for v in vals:
                             take(v, rel, "module/class-level constant")
             elif isinstance(node, (ast.FunctionDef, ast.AsyncFunctionDef, ast.Lambda)):
+                for dec in getattr(node, "decorator_list", []):
+                    # a bare @lru_cache / @lru_cache() holds 128 entries: a size the tree names by not naming one
+                    target = dec.func if isinstance(dec, ast.Call) and not dec.args and not any(k.arg == "maxsize" for k in dec.keywords) else dec
+                    dn = target.attr if isinstance(target, ast.Attribute) else getattr(target, "id", None)
+                    if dn == "lru_cache" and not (isinstance(dec, ast.Call) and (dec.args or any(k.arg == "maxsize" for k in dec.keywords))):
+                        take(ast.Constant(value=128), rel, "default maxsize of functools.lru_cache")
                 private = isinstance(node, ast.Lambda) or node.name.startswith("_")
                 if private:
                     for d in list(node.args.defaults) + [d for d in node.args.kw_defaults if d is not None]:
